@@ -148,11 +148,21 @@ fn loopback(r: &mut Rng) -> &'static str {
     }
 }
 
+/// Socket file name: every fifth case one that is not valid UTF-8 (paths are bytes on this platform).
+fn sock_name(r: &mut Rng) -> std::ffi::OsString {
+    use std::os::unix::ffi::OsStringExt;
+    if r.chance(1, 5) {
+        std::ffi::OsString::from_vec(b"t\xe9rg\xff\xfe.sock".to_vec())
+    } else {
+        "target.sock".into()
+    }
+}
+
 fn decode_dest_unix(dest: &[u8]) -> Option<PathBuf> {
     if dest.len() >= 3 && u16::from_ne_bytes([dest[0], dest[1]]) == 1 {
         let p = &dest[2..];
         let end = p.iter().position(|b| *b == 0).unwrap_or(p.len());
-        Some(PathBuf::from(String::from_utf8_lossy(&p[..end]).to_string()))
+        Some(PathBuf::from(<std::ffi::OsStr as std::os::unix::ffi::OsStrExt>::from_bytes(&p[..end])))
     } else {
         None
     }
@@ -209,7 +219,7 @@ fn case_unbuffered(cx: &mut Cx, cs: u64) {
     let udp_decoy = UdpSocket::bind(lo).unwrap();
     udp_recv.set_read_timeout(Some(Duration::from_millis(500))).unwrap();
     udp_decoy.set_nonblocking(true).unwrap();
-    let unix_path = dir.join("target.sock");
+    let unix_path = dir.join(sock_name(&mut r));
     let unix_decoy_path = dir.join("decoy.sock");
     let unix_recv = UnixDatagram::bind(&unix_path).unwrap();
     let unix_decoy = UnixDatagram::bind(&unix_decoy_path).unwrap();
@@ -378,7 +388,7 @@ fn case_buffered(cx: &mut Cx, cs: u64) {
     }
     let udp_recv = UdpSocket::bind(lo).unwrap();
     udp_recv.set_read_timeout(Some(Duration::from_millis(500))).unwrap();
-    let unix_path = dir.join("target.sock");
+    let unix_path = dir.join(sock_name(&mut r));
     let unix_recv = UnixDatagram::bind(&unix_path).unwrap();
     unix_recv.set_read_timeout(Some(Duration::from_millis(500))).unwrap();
     // kernel-made faults: a non-blocking Unix socket whose receiver does not read => EAGAIN once the queue is full
@@ -845,7 +855,16 @@ fn case_stats(cx: &mut Cx, cs: u64, enum_pattern: Option<Vec<bool>>) {
             std::thread::yield_now();
         }
     }
-    let _ = base.flush();
+    // (behind a queue the flush goes through the queue's handle: what it writes must show in the figures read through
+    // the queue at once, not only after the next metric)
+    match &queue {
+        Some(q) => {
+            let _ = q.flush();
+        }
+        None => {
+            let _ = base.flush();
+        }
+    }
     interpose::set_random(0, vec![], 0);
     interpose::clear_script();
     let stats_direct = base.stats();
@@ -903,7 +922,11 @@ fn case_contention(cx: &mut Cx, cs: u64) {
     let mut r = Rng::new(cs);
     let udp = r.chance(1, 2);
     let threads = *r.pick(&[4usize, 8, 12, 16]);
-    let per = r.range(8000, 30000) as usize;
+    // every third run is about volume, not contention: 1 MiB metrics until the byte counters have passed 2^32 (and the
+    // packet counters 2^16), refused or - every other volume run - accepted at once
+    let volume = r.chance(1, 3);
+    let accept = volume && r.chance(1, 2);
+    let per = if volume { 4400 / threads + 1 } else { r.range(8000, 30000) as usize };
     let dir = fresh_dir();
     cx.rep.eval();
     let sink: Arc<dyn MetricSink + Send + Sync> = if udp {
@@ -915,19 +938,21 @@ fn case_contention(cx: &mut Cx, cs: u64) {
     let before = sink.stats();
     interpose::FAST_ATTEMPTS.store(0, Ordering::SeqCst);
     interpose::FAST_BYTES.store(0, Ordering::SeqCst);
-    interpose::FAST_FAIL_ERRNO.store(ENOBUFS, Ordering::SeqCst);
+    interpose::FAST_FAIL_ERRNO.store(if accept { -1 } else { ENOBUFS }, Ordering::SeqCst);
     let barrier = Arc::new(std::sync::Barrier::new(threads));
     let mut joins = Vec::new();
     for t in 0..threads {
         let sink = sink.clone();
         let barrier = barrier.clone();
         joins.push(std::thread::spawn(move || {
-            let m = format!("contend.t{}:1|c", t);
+            let m = if volume { format!("contend.t{}:{}|c", t, "9".repeat(1 << 20)) } else { format!("contend.t{}:1|c", t) };
             let mut errs = 0u64;
             let mut bytes = 0u64;
             barrier.wait();
             for _ in 0..per {
-                if sink.emit(&m).is_err() {
+                // (counted alike whether refused or accepted: the run knows which of the two it scripted)
+                let res = sink.emit(&m);
+                if res.is_err() != accept {
                     errs += 1;
                     bytes += m.len() as u64;
                 }
@@ -951,12 +976,17 @@ fn case_contention(cx: &mut Cx, cs: u64) {
     cx.rep.obs("contention_runs", 1);
     cx.rep.obs("contended_updates", attempts);
     cx.rep.distinct(&format!("contention|{}|T{}", label, threads));
-    if st.packets_dropped - before.packets_dropped != attempts || st.bytes_dropped - before.bytes_dropped != abytes || errs != attempts || bytes != abytes || st.packets_sent != before.packets_sent {
+    if volume {
+        cx.rep.obs("volume_runs_past_4GiB", (abytes > (1u64 << 32)) as u64);
+    }
+    let (dp, db, sp, sb) = (st.packets_dropped - before.packets_dropped, st.bytes_dropped - before.bytes_dropped, st.packets_sent - before.packets_sent, st.bytes_sent - before.bytes_sent);
+    let want = if accept { (0, 0, attempts, abytes) } else { (attempts, abytes, 0, 0) };
+    if (dp, db, sp, sb) != want || errs != attempts || bytes != abytes {
         cx.violation(
             "C14",
             "exact-under-concurrency",
-            "lost-updates",
-            format!("{}: {} threads made {} refused sends ({} bytes); stats show packets_dropped={} bytes_dropped={} packets_sent={}", label, threads, attempts, abytes, st.packets_dropped, st.bytes_dropped, st.packets_sent),
+            if volume { "wrong-after-4GiB" } else { "lost-updates" },
+            format!("{}: {} threads made {} sends ({} bytes, all {}); stats moved by packets_dropped={} bytes_dropped={} packets_sent={} bytes_sent={}", label, threads, attempts, abytes, if accept { "accepted" } else { "refused" }, dp, db, sp, sb),
             trace.clone(),
             cs,
         );
